@@ -68,7 +68,7 @@ func runC20(c *core.Ctx) {
 	c.Floor("MakeDepositProposal implementations", len(impls), 22)
 	c.Assumef("configuration fact for C20: config.DefConfig.P2PNode.NetworkId == NETWORK_ID_MAIN_NET (the property is stated for main net); edges contradicting it are removed")
 	for _, fn := range impls {
-		opt := &eng.Opt{Cuts: eng.NetFactCuts(fn, mn), Fact: "main net"}
+		opt := &eng.Opt{Cuts: eng.NetFactCuts(fn, mn), Fact: "main net", HelperCuts: func(h *ssa.Function) []ir.Edge { return eng.NetFactCuts(h, mn) }}
 		sinks := nonNilParamSuccess(fn)
 		g := eng.NamedGuard{Name: "CheckDoneTx err==nil", G: ir.ErrNil(ir.CallTo(check))}
 		eng.Dominates(c, "C20.check≺accept", fn, g, sinks, "accepting return (non-nil param)", opt)
